@@ -138,6 +138,20 @@ pub fn entry_points<F: Family>(p: &F::Packet, t: &mut Tape, ctx: &mut Ctx) -> Ca
                 other => viol!("body streaming encoder failed into a vectored sink: {:?}", other),
             }
         }
+        // a sink that is interrupted (ErrorKind::Interrupted: "try again") before every second write, plain and vectored
+        if body.len() <= 70_000 {
+            for vectored in [false, true] {
+                let st: Vec<WStep> = (0..body.len() + 8).map(|i| if i % 2 == 0 { WStep::Interrupt } else { WStep::Accept(1 + (i * 5) % 11) }).collect();
+                let mut iw = ScriptedWriter::new(&st, body.len());
+                iw.vectored = vectored;
+                iw.one_byte = true;
+                match F::body_encode(p, &mut iw) {
+                    Some(Ok(())) => ensure!(iw.out == body, "body streaming encoder into a sink that is interrupted every other call wrote {} instead of {}", hex_short(&iw.out, 48), hex_short(&body, 48)),
+                    other => viol!("body streaming encoder gave up on a sink that reports ErrorKind::Interrupted every other call: {:?}", other),
+                }
+            }
+            ctx.label("interrupted-sinks");
+        }
         ctx.label("vectored-sinks");
         ctx.label("has-body-struct");
     } else {
